@@ -209,7 +209,7 @@ def main(argv=None):
         'property_id': pid,
         'tier': tier,
         'seed': seed,
-        'level': 'proof',
+        'level': getattr(contracts, 'LEVELS', {}).get(pid, 'proof'),
         'coverage': {
             'obligations': n_total,
             'discharged': len(proved),
